@@ -205,7 +205,15 @@ pub fn run(tier: Tier, seed: u64) -> i32 {
             continue;
         }
         // ---- (ii) every draw byte matters, every output byte varies ----
-        let zero = vec![0u8; w];
+        // the base answer is all-zero; a site that refuses that answer and draws again (its value then comes from later
+        // bytes) is measured around an ordinary base answer instead, and single answers it refuses are left out
+        let mut zero = vec![0u8; w];
+        if let Ok((_, u0, _)) = call_site(site, &zero) {
+            if u0 != p1.1 {
+                zero = counter_script(5, w);
+                report.count("sites_that_draw_again_after_an_all_zero_answer", 1);
+            }
+        }
         let mut base_used = 0usize;
         let base = match call_site(site, &zero) {
             Ok(x) => {
@@ -230,10 +238,13 @@ pub fn run(tier: Tier, seed: u64) -> i32 {
         for j in 0..w {
             for v in [0x01u8, 0x80, 0xFF] {
                 let mut sc = zero.clone();
-                sc[j] = v;
+                sc[j] ^= v;
                 match call_site(site, &sc) {
-                    Ok((out, _, _)) => {
+                    Ok((out, used_j, _)) => {
                         evals += 1;
+                        if used_j != p1.1 {
+                            continue; // this answer made the site draw again: nothing to learn about byte j from it
+                        }
                         if !base.is_empty() {
                             if out == base && !dead_draw_bytes.contains(&j) {
                                 dead_draw_bytes.push(j);
